@@ -9,11 +9,22 @@ import sys
 import time
 
 VERIF = os.path.dirname(os.path.dirname(os.path.abspath(__file__)))
-MODULES = ["contracts.c04_periods", "contracts.engine", "contracts.c03_requests", "contracts.c06_parameters", "contracts.c16_set_input", "contracts.c13_clone", "contracts.c14_reforms", "contracts.c18_engine", "contracts.c17_storage"]
+MODULES = ["contracts.c04_periods", "contracts.engine", "contracts.c03_requests", "contracts.c06_parameters", "contracts.c16_set_input", "contracts.c13_clone", "contracts.c14_reforms", "contracts.c18_engine", "contracts.c17_storage", "contracts.c15_enums"]
 
 CAL_THEORY = "calendar (OM/DIM opaque, lemma instances; closed forms = Hinnant days-from-civil), validated against datetime"
 
 PROPS = {
+    "C15": {
+        "theories": ["numpy array algebra (closures); enumeration model: n members (1 <= n <= 256, symbolic), indices [0..n), names pairwise distinct, enums[i].index == i"],
+        "lemmas": [],
+        "validations": ["numpy"],
+        "assumptions": [
+            "numpy contracts used: asarray/array of a sequence, comparison with a scalar, boolean-mask indexing (selected elements in order; same length iff all selected), astype(uint8) = value mod 256, fancy indexing; validated against numpy on every run",
+            "an enumeration has at most 256 members (uint8 index type)",
+        ],
+        "not_decided": ["encoding by member name (_str_to_index: isin / argsort / searchsorted on string arrays) is not under contract",
+                        "EnumType.__new__ (table construction by the enum metaclass) is modelled, not verified"],
+    },
     "C01": {
         "theories": ["engine model: callees of the function under test enter through recording call-site contracts; postconditions speak about the call sequence, the stack, the trace tree and what was stored", "storage view stored(period)"],
         "lemmas": [],
